@@ -1,7 +1,5 @@
 import GuppyVerif.Spec.C02
 import GuppyVerif.Lemmas.C02
-import GuppyVerif.Props.C03
-import GuppyVerif.Props.C08
 /-! # C02 — Rejected programs fail with a located user error, never a crash   *(partial)*
 
 Property theorems only.  C02 as stated ("no exception other than a Guppy error escapes from check/compile, for
@@ -11,13 +9,13 @@ every program") is NOT a Lean theorem: the checker is not modelled as a whole.  
   non-Guppy exception, `assert_never`, `zip(strict=True)`, subscript of a locally built dict) that the translator finds
   in the anchored checker files of the tree under check (`Gen/C02InternalSites.lean`, regenerated on every run) is
   classified in the hand-written `Spec/C02.lean` — so a *new* site breaks `sites_classified`; every class `guarded g`
-  names a theorem that exists (the `example`s below fail to elaborate otherwise);
+  names a theorem that exists (`Lemmas/C02Guards.lean` and the `example`s at the end fail to elaborate otherwise);
 * the **component theorems** for the components modelled in `Model/Check02.lean`: the internal outcome is
   unreachable — arity (`check_num_args` before `zip(strict=True)`), name resolution (`check_bb`'s program analysis
   before `ExprSynthesizer.visit_Name`, for the entry block and for successor blocks), block signatures
   (`check_rows_match`, under the same-keys hypothesis that C08 `no_internal_error` establishes).
 
-Everything else (104 of the 120 sites on the baseline tree) is covered only by the crash search of
+Everything else (100 of the 120 sites on the baseline tree) is covered only by the crash search of
 `harness/props/c02.py`. -/
 namespace GuppyVerif.C02
 
@@ -39,17 +37,15 @@ theorem id_lists_faithful :
 theorem classification_functional : classifiedIds.Nodup := by
   decide +kernel
 
-/-- each guard names an existing theorem of this project; the `example`s pin the names -/
+/-- each guard names one of these theorems.  That the four theorems of other properties exist is checked by
+    `Lemmas/C02Guards.lean` (a separate module importing `Props/C03` and `Props/C08`, built by the check on every run:
+    a missing theorem there breaks the tie; kept out of this file so that another property's work in progress
+    cannot break these theorems); the two of this file are pinned by `example`s at its end. -/
 theorem guard_theorem_names (g : Guard) : g.theorem ∈
     ["GuppyVerif.UseDef.no_internal_error", "GuppyVerif.Builder.two_successors_have_pred",
      "GuppyVerif.Builder.bld_residual", "GuppyVerif.Builder.break_continue_target_innermost_loop",
      "GuppyVerif.C02.typeCheckArgs_never_internal", "GuppyVerif.C02.block_names_resolved"] := by
   cases g <;> simp [Guard.theorem]
-
-example := @GuppyVerif.UseDef.no_internal_error
-example := @GuppyVerif.Builder.two_successors_have_pred
-example := @GuppyVerif.Builder.bld_residual
-example := @GuppyVerif.Builder.break_continue_target_innermost_loop
 
 /-- non-vacuity: the inventory is not empty, and both classes occur -/
 example : Gen.siteIds.length ≥ 100 ∧ (classification.any (·.2.isGuarded)) = true ∧
